@@ -510,6 +510,16 @@ func (fr *Frame) backEdge(st *State, from node, succIdx int, hdr node) {
 		}
 		r.oblige(es, "invariant-pres", fmt.Sprintf("loop%d.%s", l.ordinal, labelOr(c, i)), c.Text, f)
 	}
+	if l.spec != nil && rec != nil {
+		for i, c := range l.spec.Steps {
+			f, err := fr.evalClause(es, c, rec)
+			if err != nil {
+				r.eng.bindError(fr.spec, c, err)
+				continue
+			}
+			r.oblige(es, "step", fmt.Sprintf("loop%d.%s", l.ordinal, labelOr(c, i)), c.Text, f)
+		}
+	}
 	if l.spec != nil && l.spec.Decreases != nil && rec != nil && rec.measure != "" {
 		m, err := fr.evalTerm(es, l.spec.Decreases, rec)
 		if err == nil {
@@ -661,6 +671,12 @@ func (fr *Frame) execInstr(st *State, in ssa.Instruction) {
 			a := &Addr{kind: aCell, base: ref, typ: t}
 			r.store(st, a, r.zero(t))
 			st.env[x] = a
+			// named results and other address-taken locals are known by name from their allocation on
+			if identRe.MatchString(x.Comment) && x.Comment != "complit" && x.Comment != "varargs" {
+				if _, have := st.vars[x.Comment]; !have {
+					fr.setVar(st, "&"+x.Comment, a)
+				}
+			}
 		}
 	case *ssa.FieldAddr:
 		pt := x.X.Type().Underlying().(*types.Pointer).Elem()
